@@ -78,6 +78,12 @@ func (p *PX) byteSeqOf(v ssa.Value, fr *pxFrame, st *pxState) *ByteSeq {
 		return nil
 	case *ssa.Parameter:
 		return st.bseq[fr.id+regName(x)]
+	case *ssa.FreeVar:
+		// captured by value: the value of the frame that made the closure
+		if bv, bf := p.boundValue(x, fr); bv != ssa.Value(x) {
+			return p.byteSeqOf(bv, bf, st)
+		}
+		return nil
 	case *ssa.Slice:
 		base := p.byteSeqOf(x.X, fr, st)
 		if base == nil {
@@ -134,6 +140,11 @@ func (p *PX) byteSeqOf(v ssa.Value, fr *pxFrame, st *pxState) *ByteSeq {
 		if x.Op == token.MUL {
 			if al, ok := x.X.(*ssa.Alloc); ok {
 				return st.bseq[p.reg(fr, al)+"*"]
+			}
+			if _, ok := x.X.(*ssa.FreeVar); ok {
+				if cell, ok := p.cellOf(x.X, fr); ok {
+					return st.bseq[cell]
+				}
 			}
 			if g, ok := x.X.(*ssa.Global); ok {
 				if vals, ok := p.w.globalBytes(g); ok {
@@ -399,6 +410,10 @@ func (p *PX) bufferOf(v ssa.Value, fr *pxFrame, st *pxState) *ByteSeq {
 		return st.bseq[p.reg(fr, x)]
 	case *ssa.Parameter:
 		return st.bseq[fr.id+regName(x)]
+	case *ssa.FreeVar:
+		if bv, bf := p.boundValue(x, fr); bv != ssa.Value(x) {
+			return p.bufferOf(bv, bf, st)
+		}
 	}
 	return nil
 }
